@@ -94,11 +94,13 @@ pub struct Gen<'a> {
     pub rng: &'a mut Rng,
     strings: Vec<Vec<u8>>,
     pub types: bool,
+    /// also generate the full Luau type grammar (outside the modelled fragment: lexer and parser oracles only)
+    pub rich_types: bool,
 }
 
 impl<'a> Gen<'a> {
     pub fn new(rng: &'a mut Rng) -> Self {
-        Gen { rng, strings: string_values(), types: true }
+        Gen { rng, strings: string_values(), types: true, rich_types: false }
     }
 
     fn name(&mut self) -> &'static str {
@@ -170,7 +172,75 @@ impl<'a> Gen<'a> {
         TableExpression::new(entries)
     }
 
+    /// a member of a union / intersection / optional: never one of those itself
+    fn member_type(&mut self, depth: usize) -> Type {
+        if depth == 0 {
+            return TypeName::new(self.name()).into();
+        }
+        let d = depth - 1;
+        match self.rng.below(12) {
+            0 => TypeName::new(self.name()).with_type_parameter(self.rich_type(d)).into(),
+            1 => TypeField::new(self.name(), TypeName::new(self.name())).into(),
+            2 => Type::from(ArrayType::new(self.rich_type(d))),
+            3 => {
+                let mut table = TableType::default();
+                for _ in 0..self.rng.below(3) {
+                    table = table.with_property(TablePropertyType::new(self.name(), self.rich_type(d)));
+                }
+                if self.rng.chance(1, 3) {
+                    table = table.with_indexer_type(TableIndexerType::new(self.member_type(d), self.rich_type(d)));
+                }
+                table.into()
+            }
+            4 => Type::from(ExpressionType::new(self.expression(d))),
+            5 => Type::from(StringType::from_value("lit")),
+            6 => Type::from(ParentheseType::new(self.rich_type(d))),
+            7 => Type::nil(),
+            8 => Type::from(true),
+            _ => TypeName::new(self.name()).into(),
+        }
+    }
+
+    pub fn rich_type(&mut self, depth: usize) -> Type {
+        if depth == 0 {
+            return TypeName::new(self.name()).into();
+        }
+        let d = depth - 1;
+        match self.rng.below(10) {
+            0 => Type::from(OptionalType::new(self.member_type(d))),
+            1 => Type::from(UnionType::new(self.member_type(d), self.member_type(d))),
+            2 => Type::from(IntersectionType::new(self.member_type(d), self.member_type(d))),
+            3 | 4 => {
+                let return_type: FunctionReturnType = match self.rng.below(4) {
+                    0 => TypePack::default().with_type(self.rich_type(d)).with_type(self.rich_type(d)).into(),
+                    1 => TypePack::default().into(),
+                    2 => VariadicTypePack::new(self.member_type(d)).into(),
+                    _ => self.member_type(d).into(),
+                };
+                let mut function = FunctionType::new(return_type);
+                for _ in 0..self.rng.below(3) {
+                    if self.rng.chance(1, 2) {
+                        function = function.with_named_argument(self.name(), self.rich_type(d));
+                    } else {
+                        function = function.with_argument(self.rich_type(d));
+                    }
+                }
+                if self.rng.chance(1, 4) {
+                    function = function.with_variadic_type(VariadicTypePack::new(self.member_type(d)));
+                }
+                if self.rng.chance(1, 4) {
+                    function = function.with_generic_parameters(GenericParameters::from_type_variable("T"));
+                }
+                function.into()
+            }
+            _ => self.member_type(depth),
+        }
+    }
+
     fn simple_type(&mut self) -> Type {
+        if self.rich_types && self.rng.chance(2, 3) {
+            return self.rich_type(2);
+        }
         match self.rng.below(6) {
             0 => Type::from(OptionalType::new(TypeName::new(self.name()))),
             1 => Type::nil(),
@@ -251,6 +321,27 @@ impl<'a> Gen<'a> {
     pub fn statement(&mut self, depth: usize, in_loop: bool) -> Statement {
         let d = depth.saturating_sub(1);
         let choice = if depth == 0 { self.rng.below(5) } else { self.rng.below(14) };
+        if self.rich_types && self.rng.chance(1, 8) {
+            let mut declaration = TypeDeclarationStatement::new(self.name(), self.rich_type(2));
+            match self.rng.below(4) {
+                0 => {
+                    declaration = declaration
+                        .with_generic_parameters(GenericParametersWithDefaults::from_type_variable("T"));
+                }
+                1 => {
+                    declaration = declaration.with_generic_parameters(
+                        GenericParametersWithDefaults::from_type_variable("T")
+                            .with_type_variable_with_default(TypeVariableWithDefault::new("U", self.member_type(1)))
+                            .expect("type variable after type variable"),
+                    );
+                }
+                _ => {}
+            }
+            if self.rng.chance(1, 4) {
+                declaration = declaration.export();
+            }
+            return declaration.into();
+        }
         match choice {
             0 | 1 => {
                 let n = 1 + self.rng.below(2);
